@@ -12,7 +12,7 @@ META = dict(
               "decisions (SLEEP/DEFER/ABORT); async: CancelledError thrown at a solver-chosen await point; Policy/AsyncPolicy "
               "without retry: 5 outcome kinds x attempt hook raising (start/end; ValueError, AbortRetryError, "
               "KeyboardInterrupt): exactly one record",
-        thorough="N=4, 3 calls",
+        thorough="N=4",
     ),
     assumptions=["the spy admits every call (admission logic is C07's subject)",
                  "exits through GeneratorExit, nested policy errors and raising callbacks are C08's subject"],
@@ -164,7 +164,7 @@ def jobs(tier):
         for o1 in range(len(kinds)):
             out.append(dict(name=f"run:{entry}:o1={kinds[o1]}", harness="rv.props.c09:h_run",
                             params=dict(entry=entry, N=N, kinds=kinds, classes=["TRANSIENT", "PERMANENT"], handler=True,
-                                        abort=True, hooks=False, calls=2 if q else 3, N_later=1, pin={"o1": o1}, maxk=3 * N + 1),
+                                        abort=True, hooks=False, calls=2, N_later=1, pin={"o1": o1}, maxk=3 * N + 1),
                             max_wall_s=wall, weight=3 if o1 in (1, 2) else 1))
     for a in (False, True):
         for meth in ("call", "execute"):
